@@ -107,19 +107,23 @@ inductive Op (K V : Type) where
   | del (k : K)
 
 /-- Off-chain requests that reach `GetApplication`. -/
-inductive Off (K : Type) where
+inductive Off (K V : Type) where
   /-- `Query custom/application/application` at a height (0 = latest committed). -/
   | customQuery (height : Nat) (k : K)
   /-- RPC `QueryApp` through `app.NewContext(height)` (prev context). -/
   | rpcQuery (height : Nat) (k : K)
   /-- `CheckTx` / simulate ante handler: non-prev context on the working store. -/
   | checkTx (k : K)
+  /-- `Query app/simulate` of a transaction whose handler reads and writes the record of `k`
+  (application stake / edit-stake): since /repo 3ee4649 the handler runs on a **prev** context over
+  a store layer that is discarded, so neither the store nor the cache changes. -/
+  | simulate (k : K) (v : V)
 
 inductive Step (K V : Type) where
   | cons (op : Op K V)
   | commit
   | restart (cap : Nat)
-  | off (o : Off K)
+  | off (o : Off K V)
 
 def Step.isOff : Step K V → Bool
   | .off _ => true
@@ -149,6 +153,10 @@ def step (q : QueryCtx) (n : Node K V) : Step K V → Node K V × List (Option V
     | none => (n, [])
     | some s => ({ n with cache := (getApp true s n.cache k).1 }, [])
   | .off (.checkTx k) => ({ n with cache := (getApp false n.work n.cache k).1 }, [])
+  | .off (.simulate k v) =>
+    -- handler: GetApplication then SetApplication, both under a prev context; the written store is dropped
+    let c1 := (getApp true n.work n.cache k).1
+    ({ n with cache := (setApp true n.work c1 k v).2 }, [])
 
 def run (q : QueryCtx) (n : Node K V) : List (Step K V) → Node K V × List (Option V)
   | [] => (n, [])
